@@ -164,6 +164,28 @@ pub enum GeneralTerm {
 
 impl_node!(GeneralTerm, Format, GeneralTermParser);
 
+/// A symbol is renamed (`<name>` becomes `<name>__s`) if it is named like a propositional predicate, and also if it
+/// is such a name followed by `__s` suffixes: otherwise a symbol literally called `<name>__s` could not be told
+/// apart from the renamed `<name>`
+pub fn conflicts_with_propositional_predicate(
+    symbol: &str,
+    possible_conflicts: &IndexSet<Predicate>,
+) -> bool {
+    let mut stem = symbol;
+    loop {
+        if possible_conflicts.contains(&Predicate {
+            symbol: stem.to_string(),
+            arity: 0,
+        }) {
+            return true;
+        }
+        match stem.strip_suffix("__s") {
+            Some(shorter) => stem = shorter,
+            None => return false,
+        }
+    }
+}
+
 impl GeneralTerm {
     pub fn variables(&self) -> IndexSet<Variable> {
         match &self {
@@ -224,12 +246,8 @@ impl GeneralTerm {
     fn rename_conflicting_symbols(self, possible_conflicts: &IndexSet<Predicate>) -> Self {
         match self {
             GeneralTerm::SymbolicTerm(SymbolicTerm::Symbol(s)) => {
-                let predicate = Predicate {
-                    symbol: s.clone(),
-                    arity: 0,
-                };
                 // TODO: increment new name while conflicts exist
-                if possible_conflicts.contains(&predicate) {
+                if conflicts_with_propositional_predicate(&s, possible_conflicts) {
                     GeneralTerm::SymbolicTerm(SymbolicTerm::Symbol(format!("{s}__s")))
                 } else {
                     GeneralTerm::SymbolicTerm(SymbolicTerm::Symbol(s))
